@@ -64,7 +64,7 @@ def gen_case(r, tier):
 
 
 def gen_cases(rng, tier):
-    n = 1600 if tier == "quick" else 20000
+    n = 1200 if tier == "quick" else 20000
     items = [gen_case(rng.fork(f"c04_{k}"), tier) for k in range(n)]
     return items, {"random_tree_cases": n, "wide_amplitude_cases": sum(1 for it in items if it.get("wide"))}
 
@@ -72,7 +72,7 @@ def gen_cases(rng, tier):
 def main(rep, tier, seed):
     return S.run_check(rep, PROP, tier, seed, gen_cases, RULE,
                        "theorems: pointwise/delay/pull/by_ref/composition/clip laws for every adaptor tree, frame type and closure; tie: the model's executable instances run by coqc on the same trees as the real crate, every observation compared exactly",
-                       "the clip law on concrete formats is proved for the integer instances (i16, i32, u8 via i8); the float instances are covered by the abstract law only up to its total-order hypotheses (NaN excluded)")
+                       "the clip law is proved abstractly for every signed format whose < is irreflexive (so also floats, where a NaN passes through) and concretely as clamp(-t,t) for the integer instances (i16, i32, u8 via i8)")
 
 
 def replay(path):
